@@ -11,6 +11,12 @@ use jiff::Timestamp;
 use std::path::PathBuf;
 use std::sync::Arc;
 
+/// `Node::name()` un-escapes the stored name (string search + parser); the harness names contain no
+/// backslash, for which `name()` is the identity -- stubbed to keep CBMC away from `str::contains`.
+fn plain_name(n: &Node) -> std::borrow::Cow<'_, OsStr> {
+    std::borrow::Cow::Borrowed(OsStr::new(&n.name))
+}
+
 fn any_ts() -> Option<Timestamp> {
     let present: bool = kani::any();
     let s: i64 = kani::any();
@@ -45,6 +51,7 @@ fn did(b: u8) -> DataId {
 /// unless ignored or unknown on one side); a name without parent node is NotFound.
 #[kani::proof]
 #[kani::unwind(6)]
+#[kani::stub(crate::backend::node::Node::name, plain_name)]
 fn c11_is_parent_requires_equal_metadata() {
     let (pt, psize, pmtime, pctime, pinode) = (any_type(), kani::any::<u64>(), any_ts(), any_ts(), kani::any::<u64>());
     let (nt, nsize, nmtime, nctime, ninode) = (any_type(), kani::any::<u64>(), any_ts(), any_ts(), kani::any::<u64>());
@@ -56,7 +63,7 @@ fn c11_is_parent_requires_equal_metadata() {
 
     let same_core = pt == nt && psize == nsize && pmtime == nmtime;
     let ctime_ok = ignore_ctime || pctime.is_none() || nctime.is_none() || pctime == nctime;
-    let matched = matches!(parent.is_parent(&n, std::ffi::OsStr::new("a")), ParentResult::Matched(_));
+    let matched = matches!(parent.is_parent(&n, OsStr::new("a")), ParentResult::Matched(_));
     if matched {
         assert!(same_core, "reuse requires identical type, size and modification time");
         assert!(ctime_ok, "reuse requires an identical change time unless ignored / unknown");
@@ -73,11 +80,12 @@ fn c11_is_parent_requires_equal_metadata() {
 
 #[kani::proof]
 #[kani::unwind(6)]
+#[kani::stub(crate::backend::node::Node::name, plain_name)]
 fn c11_unknown_name_is_not_found() {
     let tree = Tree { nodes: vec![node("a", NodeType::File, kani::any(), any_ts(), any_ts(), kani::any(), None)] };
     let mut parent = Parent { tree_ids: Vec::new(), trees: vec![(tree, 0)], stack: Vec::new(), ignore_ctime: kani::any(), ignore_inode: kani::any() };
     let n = node("b", NodeType::File, kani::any(), any_ts(), any_ts(), kani::any(), None);
-    let r = parent.is_parent(&n, std::ffi::OsStr::new("b"));
+    let r = parent.is_parent(&n, OsStr::new("b"));
     assert!(matches!(r, ParentResult::NotFound));
     core::mem::forget(parent);
     core::mem::forget(n);
@@ -105,6 +113,7 @@ impl ReadGlobalIndex for MockIndex {}
 /// index; otherwise the file is reported NotFound (= read again).
 #[kani::proof]
 #[kani::unwind(34)]
+#[kani::stub(crate::backend::node::Node::name, plain_name)]
 fn c11_reuse_only_if_all_chunks_indexed() {
     let size: u64 = kani::any();
     let mtime = any_ts();
